@@ -328,6 +328,7 @@ int fiber_wait_for_event(int fd, uint32_t events) {
   fiber_spinlock_lock(&info->spinlock);
 
 #if defined(__linux__)
+  const int prev_events = info->events;
   if (events & FIBER_POLL_IN) {
     info->events |= EPOLLIN;
   }
@@ -338,11 +339,22 @@ int fiber_wait_for_event(int fd, uint32_t events) {
   e.events = EPOLLONESHOT | info->events;
   e.data.fd = fd;
 
+  int ctl_ret;
   if (!info->added) {
-    epoll_ctl(event_fd, EPOLL_CTL_ADD, fd, &e);
-    info->added = 1;
+    ctl_ret = epoll_ctl(event_fd, EPOLL_CTL_ADD, fd, &e);
+    if (!ctl_ret) {
+      info->added = 1;
+    }
   } else {
-    epoll_ctl(event_fd, EPOLL_CTL_MOD, fd, &e);
+    ctl_ret = epoll_ctl(event_fd, EPOLL_CTL_MOD, fd, &e);
+  }
+  if (ctl_ret) {
+    // the descriptor cannot be polled - e.g. another thread closed it after the
+    // caller looked at it. Nobody would ever wake us: fail (errno is
+    // epoll_ctl's, EBADF for a closed descriptor) instead of parking for ever
+    info->events = prev_events;
+    fiber_spinlock_unlock(&info->spinlock);
+    return FIBER_ERROR;
   }
 #elif defined(SOLARIS)
   if (events & FIBER_POLL_IN) {
